@@ -179,6 +179,18 @@ def r1(ctx, f):
     ok = ok and seen == {True, False}
   ctx.ob('C20.R1', inner, 'async form returns the pending result, blocking form its get()', ok, 'return is %s' % (U(rets[0]) if rets else None),
          'the blocking form returns the value or raises; the _async form must not block')
+  # functools.wraps copies orig_method.__dict__, and abc.abstractmethod marks a method by __isabstractmethod__ = True in it:
+  # the generated wrapper of an abstract interface method would itself be abstract and the proxy class could not be instantiated
+  wr = [d_ for d_ in inner.node.decorator_list if isinstance(d_, ast.Call) and (dotted(d_.func) or '').split('.')[-1] == 'wraps']
+  concrete = True
+  if wr:
+    upd = [k for k in wr[0].keywords if k.arg == 'updated']
+    no_dict = bool(upd) and U(upd[0].value).replace(' ', '') in ('()', '[]')
+    reset = [st for st in walk_no_nested(pm.node) if isinstance(st, ast.Assign) and U(st.targets[0]) == '%s.__isabstractmethod__' % inner.name and U(st.value) == 'False']
+    concrete = no_dict or bool(reset)
+  ctx.ob('C20.R1', pm, 'the generated method is concrete even when the interface method is abstract', concrete,
+         'functools.wraps copies __isabstractmethod__ from an @abstractmethod interface method and nothing resets it: the proxy of an abc interface cannot be instantiated',
+         'for every interface class the generated client exposes each public method; interfaces are commonly written with abc.abstractmethod')
   d = pm.node.args.defaults
   ctx.ob('C20.R1', pm, 'ProxyMethod defaults to the blocking form', len(d) == 1 and U(d[0]) == 'False', 'default is %s' % [U(x) for x in d], why, nontrivial=False)
   outer_ret = [n for n in walk_no_nested(pm.node) if isinstance(n, ast.Return)]
@@ -304,13 +316,26 @@ def r4(ctx):
     src = [st for st in walk_no_nested(t.node) if isinstance(st, ast.Assign) and U(st.targets[0]) == it]
     ok = (len(src) == 1 and U(src[0].value).replace(' ', '') == "%s.netloc.split(',')" % u) or it == "%s.netloc.split(',')" % u
     ctx.ob('C20.R4', t, "endpoints = netloc split on ','", ok, 'loop iterates %s' % it, why)
-    sp = [st for st in ast.walk(lp) if isinstance(st, ast.Assign) and isinstance(st.targets[0], ast.Tuple) and U(st.value).replace(' ', '').endswith(".split(':')")]
-    ok = len(sp) == 1 and [U(e) for e in sp[0].targets[0].elts] == ['host', 'port'] and U(sp[0].value).startswith(U(lp.target))
-    ctx.ob('C20.R4', t, "host, port = entry.split(':')", ok, 'split is %s' % [U(s) for s in sp], why)
+    sp = [st for st in ast.walk(lp) if isinstance(st, ast.Assign) and isinstance(st.targets[0], ast.Tuple) and isinstance(st.value, ast.Call)
+          and call_attr(st.value) in ('split', 'rsplit', 'rpartition', 'partition')]
+    ok = len(sp) == 1 and len(sp[0].targets[0].elts) in (2, 3) and U(sp[0].value.func.value) == U(lp.target)
+    hostv = U(sp[0].targets[0].elts[0]) if ok else 'host'
+    portv = U(sp[0].targets[0].elts[-1]) if ok else 'port'
+    if ok:
+      c = sp[0].value
+      a = [U(x).replace('"', "'") for x in c.args]
+      # the port is what follows the LAST colon: hosts may contain colons themselves (IPv6 literals such as [::1]:8080)
+      ok = (call_attr(c) == 'rsplit' and a == ["':'", '1']) or (call_attr(c) == 'rpartition' and a == ["':'"])
+    ctx.ob('C20.R4', t, "host, port = entry split at its last ':'", ok,
+           'split is %s: a host that contains colons (tcp://[::1]:8080) cannot be unpacked into host, port' % [U(s.value) for s in sp], why)
+    if ok:
+      strip = [x for x in ast.walk(lp) if (isinstance(x, ast.Call) and call_attr(x) == 'strip' and U(x.func.value) == hostv and x.args and set(str(getattr(x.args[0], 'value', ''))) == set('[]'))
+               or (isinstance(x, ast.Subscript) and U(x).replace(' ', '') == '%s[1:-1]' % hostv)]
+      ctx.ob('C20.R4', t, 'brackets of an IPv6 literal are not part of the host', bool(strip), 'the host keeps its [ ] brackets', why)
     ep = [c for c in ast.walk(lp) if isinstance(c, ast.Call) and U(c.func).endswith('Endpoint')]
-    ok = len(ep) == 1 and [U(a).replace(' ', '') for a in ep[0].args] in (['host', 'int(port)'],)
-    if not ok and len(ep) == 1 and [U(a) for a in ep[0].args] == ['host', 'port']:
-      ok = any(isinstance(st, ast.Assign) and U(st.targets[0]) == 'port' and U(st.value).replace(' ', '') == 'int(port)' for st in ast.walk(lp))
+    ok = len(ep) == 1 and [U(a).replace(' ', '') for a in ep[0].args] in ([hostv, 'int(%s)' % portv],)
+    if not ok and len(ep) == 1 and [U(a) for a in ep[0].args] == [hostv, portv]:
+      ok = any(isinstance(st, ast.Assign) and U(st.targets[0]) == portv and U(st.value).replace(' ', '') == 'int(%s)' % portv for st in ast.walk(lp))
     ctx.ob('C20.R4', t, 'Endpoint(host, int(port))', ok, 'endpoint built as %s' % [U(e) for e in ep], why + '; a text port never equals the integer port of another Endpoint')
     app = [c for c in ast.walk(lp) if isinstance(c, ast.Call) and isinstance(c.func, ast.Attribute) and c.func.attr in ('append', 'insert', 'add', 'extend')]
     ok = len(app) == 1 and app[0].func.attr == 'append'
